@@ -436,7 +436,10 @@ Definition fits_read (b : list N) : fres :=
     twelve mandatory cards (the last four: TTYPE1 = 'UNIQ', TFORM1 = 'K', TTYPE2 = 'PROBDENSITY', TFORM2 = 'D'),
     the same keyword loop, then PIXTYPE present, ORDERING = NUNIQ, COORDSYS present, MOCORDER <= 29,
     NAXIS1 - 16 bytes skipped per row (at most 65535), NAXIS2 rows (uniq, density bits); a row that cannot be
-    read entirely is an I/O error; uniq < 4, a depth above MOCORDER or an index outside its depth is rejected. *)
+    read entirely is an I/O error; uniq < 4, a depth above MOCORDER, an index outside its depth or a NaN density is rejected. *)
+(** the 64 bits of a binary64 NaN: exponent all ones, non-zero fraction *)
+Definition is_nan_bits (x : N) : bool := ((x / 2 ^ 52) mod 2048 =? 2047) && negb (x mod 2 ^ 52 =? 0).
+
 Fixpoint mom_rows (fuel : nat) (nskip : nat) (n : N) (dmax : N) (data : list N) (acc : list (N * N)) : sum ferr (list (N * N)) :=
   match fuel with
   | O => Datatypes.inl FFuel
@@ -450,6 +453,7 @@ Fixpoint mom_rows (fuel : nat) (nskip : nat) (n : N) (dmax : N) (data : list N) 
       if u <? 4 then Datatypes.inl FCustom
       else let c := from_uniq_hpx u in
            if (dmax <? fst c) || (n_cells Hpx (fst c) <=? snd c) then Datatypes.inl FCustom
+           else if is_nan_bits dens then Datatypes.inl FCustom
            else mom_rows f nskip (n - 1) dmax rest (acc ++ [(u, dens)])
   end.
 
